@@ -233,7 +233,14 @@ BINARY = b'\xff\xfe\x00\x9f p cnf \xc3\x28 1 2\n'
 GARBAGE = 'this is ( not a graph ]] 1 : : 0\n{ -- -> e 1 x\np\n'
 FILE_KINDS = ['missing', 'empty', 'comments', 'trunc', 'garbage', 'valid',
               'dir', 'unread', 'binary', 'airy', 'crlf']
-STDIN_KINDS = ['empty', 'comments', 'trunc', 'garbage', 'valid', 'binary', 'airy', 'crlf']
+STDIN_KINDS = ['empty', 'comments', 'trunc', 'garbage', 'valid', 'binary', 'airy', 'crlf',
+               'percent', 'latex']
+# a file in another of the tools' own output formats given where DIMACS / a
+# graph is expected (a LaTeX document opens with a lone '%'), the SATLIB trailer
+PERCENT = '%\n0\n'
+LATEX_DOC = ('%\n\\documentclass[10pt,a4paper]{article}\n\\usepackage{amsmath}\n\\begin{document}\n'
+             '\\begin{align}\n&       \\left( {x_1} \\lor \\overline{x}_2 \\right) \\\\\n\\end{align}\n'
+             '\\end{document}\n')
 
 
 def _trunc(text):
@@ -252,6 +259,10 @@ def _content(kind, valid, ext):
         return GARBAGE
     if kind == 'valid':
         return valid
+    if kind == 'percent':
+        return PERCENT + valid
+    if kind == 'latex':
+        return LATEX_DOC
     if kind == 'airy':
         # the valid content laid out with blank and white-space-only lines and
         # trailing blanks (legal or not, the tool must not crash on it)
@@ -866,6 +877,10 @@ def gen_graph_grammar(tier):
                                    [f, 'g.' + f, 'extra'], [f, '']):
                         yield case(fam, 'cnfgen', sub, [], host + b + ['save'] + target)
             yield case(fam, 'cnfgen', sub, [], host + b + ['save'])
+            # '-' as the target of save: whatever it means, the output stays one formula
+            yield case(fam, 'cnfgen', sub, [], host + b + ['save', fmts[gt][0], '-'])
+            yield case(fam, 'cnfgen', sub, ['-of', 'opb'], host + b + ['save', fmts[gt][0], '-'])
+            yield case(fam, 'cnfgen', sub, [], host + b + ['save', '-'])
             yield case(fam, 'cnfgen', sub, [], host + b + ['save', 'g.gml', 'save', 'h.gml'])
             for m1 in mods[gt]:
                 yield case(fam, 'cnfgen', sub, [], host + b + [m1] +
